@@ -117,8 +117,6 @@ func (manager *TaskManager) Create(pip pipservices.Pip) (result pipservices.Task
 		childScope.Close()
 		return nil, err
 	}
-	// add oLogger to oBroadcast
-	manager.tasks[taskname] = task
 	if err = manager.validWaitList([]string{taskname}, task, 100); err != nil {
 		childScope.Close()
 		return nil, err
@@ -127,6 +125,8 @@ func (manager *TaskManager) Create(pip pipservices.Pip) (result pipservices.Task
 		childScope.Close()
 		return nil, err
 	}
+	// the task is registered only once the submission is accepted
+	manager.tasks[taskname] = task
 	manager.wg.Add(1)
 	return task, nil
 }
